@@ -261,16 +261,19 @@ public:
 // ------------------------------------------------------------------ upload with content filters
 struct upload_data {
 	long raw_bytes, raw_chunks, new_files, progress, ready, end_of_content, errors; uint64_t raw_hash; std::string names;
-	upload_data() : raw_bytes(0), raw_chunks(0), new_files(0), progress(0), ready(0), end_of_content(0), errors(0), raw_hash(1469598103934665603ull) {}
+	char abort_kind; long abort_n; int abort_code;      // the filter throws abort_upload(code) at the n-th event of that kind
+	upload_data() : raw_bytes(0), raw_chunks(0), new_files(0), progress(0), ready(0), end_of_content(0), errors(0), raw_hash(1469598103934665603ull), abort_kind(0), abort_n(0), abort_code(0) {}
+	void set_abort(std::string const &v) { if (v.size() < 2) return; abort_kind = v[0]; abort_n = atol(v.c_str() + 1); size_t dot = v.find('.'); abort_code = dot == std::string::npos ? 403 : atoi(v.c_str() + dot + 1); }
+	void maybe_abort(char kind, long count) { if (abort_kind == kind && count == abort_n) throw cppcms::http::abort_upload(abort_code); }
 };
 class upload_app : public cppcms::application, public cppcms::http::multipart_filter {
 public:
 	upload_app(cppcms::service &s) : cppcms::application(s) {}
 	upload_data *d() { return context().get_specific<upload_data>(); }
-	void on_new_file(cppcms::http::file &f) { if (!d()) return; d()->new_files++; d()->names += f.name() + ";"; }
-	void on_upload_progress(cppcms::http::file &) { if (d()) d()->progress++; }
-	void on_data_ready(cppcms::http::file &) { if (d()) d()->ready++; }
-	void on_end_of_content() { if (d()) d()->end_of_content++; }
+	void on_new_file(cppcms::http::file &f) { if (!d()) return; d()->new_files++; d()->names += f.name() + ";"; d()->maybe_abort('n', d()->new_files); }
+	void on_upload_progress(cppcms::http::file &) { if (d()) { d()->progress++; d()->maybe_abort('p', d()->progress); } }
+	void on_data_ready(cppcms::http::file &) { if (d()) { d()->ready++; d()->maybe_abort('r', d()->ready); } }
+	void on_end_of_content() { if (d()) { d()->end_of_content++; d()->maybe_abort('e', d()->end_of_content); } }
 	void on_error() { upload_data *u = d(); if (u) u->errors++; ev("{\"ev\":\"on_error\",\"app\":\"upload\",\"token\":" + jstr(token_of(request())) + ",\"errors\":" + std::to_string(u ? u->errors : -1) + "}"); }
 	void main(std::string url)
 	{
@@ -282,6 +285,7 @@ public:
 			if ((v = request().get("mp_limit")) != "") request().limits().multipart_form_data_limit(atoll(v.c_str()));
 			if ((v = request().get("mem_limit")) != "") request().limits().file_in_memory_limit((size_t)atoll(v.c_str()));
 			if ((v = request().get("setbuf")) != "") request().setbuf(atoi(v.c_str()));
+			if ((v = request().get("abort")) != "") d()->set_abort(v);
 			ev("{\"ev\":\"headers\",\"app\":\"upload\",\"token\":" + jstr(token_of(request())) + "}");
 			return;
 		}
@@ -295,8 +299,8 @@ class rawup_app : public cppcms::application, public cppcms::http::raw_content_f
 public:
 	rawup_app(cppcms::service &s) : cppcms::application(s) {}
 	upload_data *d() { return context().get_specific<upload_data>(); }
-	void on_data_chunk(void const *p, size_t n) { if (!d()) return; d()->raw_chunks++; d()->raw_bytes += (long)n; d()->raw_hash = fnv(p, n, d()->raw_hash); }
-	void on_end_of_content() { if (d()) d()->end_of_content++; }
+	void on_data_chunk(void const *p, size_t n) { if (!d()) return; d()->raw_chunks++; d()->raw_bytes += (long)n; d()->raw_hash = fnv(p, n, d()->raw_hash); d()->maybe_abort('d', d()->raw_chunks); }
+	void on_end_of_content() { if (d()) { d()->end_of_content++; d()->maybe_abort('e', d()->end_of_content); } }
 	void on_error() { upload_data *u = d(); if (u) u->errors++; ev("{\"ev\":\"on_error\",\"app\":\"rawup\",\"token\":" + jstr(token_of(request())) + ",\"errors\":" + std::to_string(u ? u->errors : -1) + "}"); }
 	void main(std::string url)
 	{
@@ -307,6 +311,7 @@ public:
 			if ((v = request().get("cl_limit")) != "") request().limits().content_length_limit(atoll(v.c_str()));
 			if ((v = request().get("mp_limit")) != "") request().limits().multipart_form_data_limit(atoll(v.c_str()));
 			if ((v = request().get("setbuf")) != "") request().setbuf(atoi(v.c_str()));
+			if ((v = request().get("abort")) != "") d()->set_abort(v);
 			ev("{\"ev\":\"headers\",\"app\":\"rawup\",\"token\":" + jstr(token_of(request())) + "}");
 			return;
 		}
